@@ -105,3 +105,43 @@ def safe(f, *a, **k):
         return f(*a, **k), None
     except Exception:
         return None, traceback.format_exc()
+
+
+def single_gate_sweep(ck, m, rng, per_kind=None):
+    """Directed stream: every gate kind of the generator as a one-gate circuit (inputs -> gate -> output), ALL value combinations of
+    its operands in one bit-parallel simulation (sampled down to per_kind lanes if given), compared with the independent composition
+    of the documented operators.  Finds the concrete operand tuple when a dispatch branch is wrong.  Returns [(desc, what)]."""
+    import itertools
+    from kyupy.circuit import Circuit, Node, Line
+    from harness import logicsim_corr as lc
+    values = {2: [0, 3], 4: [0, 1, 2, 3], 8: list(range(8))}[m]
+    fails = []
+    for kind, ar in cg.GATE_KINDS:
+        c = Circuit('one')
+        pis = [Node(c, f'i{k}', 'input') for k in range(ar)]
+        g = Node(c, 'g', kind)
+        o = Node(c, 'o', 'output')
+        for n in pis + [o]:
+            c.io_nodes.append(n)
+        for k, pi in enumerate(pis):
+            Line(c, pi, (g, k))
+        Line(c, g, o)
+        combos = list(itertools.product(values, repeat=ar))
+        if per_kind is not None and len(combos) > per_kind:
+            combos = rng.sample(combos, per_kind)
+        stim = np.zeros((len(c.s_nodes), len(combos)), dtype=np.uint8)
+        stim[:ar, :] = np.array(combos, dtype=np.uint8).T
+        res, err = safe(lc.run_logicsim, c, m, stim, False, False)
+        desc = {'circuit': cg.describe(c), 'm': m, 'c_reuse': False, 'strip_forks': False, 'kind': kind}
+        ck.count(len(combos), f'single-gate sweep m={m}')
+        if err is not None:
+            fails.append((dict(desc, stimulus=stim[:, :1].tolist()), 'raises ' + err[-300:]))
+            continue
+        sim, s1, s0 = res
+        diffs = oracle_compare(c, m, stim, s1, lc.ppo_mask(sim))
+        if diffs:
+            lane, p, exp, got = diffs[0]
+            fails.append((dict(desc, stimulus=stim[:, lane:lane + 1].tolist()),
+                          f'{kind} with operands {stim[:ar, lane].tolist()}: composition of the documented operators gives {exp}, simulator captured {got} '
+                          f'({len(diffs)} of {len(combos)} operand tuples differ)'))
+    return fails
